@@ -5,10 +5,9 @@ thin recording wrapper that carries a tag.  The evaluator wrapper appends (env t
 `CALLS` whenever coba asks it to evaluate a triple, so a harness can tell which triples a (resumed) run really
 evaluated.  Tags survive the deep copy coba makes of a learner that occurs in several triples.
 """
-from coba.environments import Environments
 from coba.learners import RandomLearner, BanditEpsilonLearner
 from coba.evaluators import SequentialCB
-from coba.primitives import Learner, Evaluator, Environment
+from coba.primitives import Learner, Evaluator, Environment, SimulatedInteraction
 
 CALLS = []          # (env tag, learner tag, evaluator tag) per evaluate call, in call order; cleared by the harness
 
@@ -40,15 +39,30 @@ class RecEval(Evaluator):
         self.tag, self.inner = tag, inner
 
     @property
-    def params(self): return self.inner.params
+    def params(self): return {**self.inner.params, 'tag': self.tag}
 
     def evaluate(self, environment, learner):
         CALLS.append((environment.tag, learner.tag, self.tag))
         return list(self.inner.evaluate(environment, learner))
 
 
+class TinyEnv(Environment):
+    """A cheap deterministic simulated environment (the synthetic coba environments cost 40 ms per read, which is
+    all a crash point would otherwise spend its time on): n interactions, 2 actions, list-valued params."""
+    def __init__(self, n, seed):
+        self.n, self.seed = n, seed
+
+    @property
+    def params(self): return {'env_type': 'Tiny', 'n': self.n, 'seed': self.seed, 'features': ['x', 'a']}
+
+    def read(self):
+        for i in range(self.n):
+            x = ((i + 1) * (self.seed + 2) % 7) / 7
+            yield SimulatedInteraction([round(x, 5), i], [[0.25], [0.75]], [round(x * 0.5, 5), round(1 - x, 5)])
+
+
 def _syn(n, seed):
-    return Environments.from_linear_synthetic(n, n_actions=2, n_context_features=1, n_action_features=1, seed=seed)[0]
+    return TinyEnv(n, seed)
 
 
 SHAPES = ('S1', 'S2', 'S4')
